@@ -33,7 +33,7 @@ if $applies; then
   RES="{"
   first=true
   for c in "$@"; do
-    out=$(cd /verif && VERIF_REPO="$WT" VERIF_BUILD_DIR="/tmp/zksim-build-$NAME" CARGO_TARGET_DIR="/tmp/zksim-build-$NAME/target" VERIF_DIR="/tmp/zksim-build-$NAME/vdir" ./check "$c" quick 2>&1); rc=$?
+    out=$(cd ${VERIF_HOME:-/verif} && VERIF_REPO="$WT" VERIF_BUILD_DIR="/tmp/zksim-build-$NAME" CARGO_TARGET_DIR="/tmp/zksim-build-$NAME/target" VERIF_DIR="/tmp/zksim-build-$NAME/vdir" ./check "$c" quick 2>&1); rc=$?
     echo "=== check $c rc=$rc" >>"$LOG"; echo "$out" | grep -E "violation:|VIOLATION|HARNESS|zksim:" | cut -c1-600 >>"$LOG"
     cls=$(echo "$out" | grep -E "^  violation:" | sed -E 's/.*class=([^ ]+) site=([^ ]+).*/\1@\2/' | head -4 | tr '\n' ';')
     $first || RES="$RES,"; first=false
